@@ -184,7 +184,7 @@ inductive Result where
   deriving Repr, DecidableEq
 
 /-- Bound given to each of the five inner loops. -/
-def innerFuel : Nat := 100
+def innerFuel : Nat := 200
 
 /-- How one pass through the five loops (from label `WRAP` to the `return`) ends. -/
 inductive PassOut where
